@@ -77,8 +77,18 @@ class G16:
         r = self.rnd
         out = []
         for _ in range(n if n is not None else r.randrange(1, 4)):
-            c = r.randrange(14)
-            if c < 3 or depth <= 0:
+            c = r.randrange(15)
+            if c == 14 and depth > 0:
+                # a loop that never runs (constant-false condition): what follows it is reachable
+                lctx = dict(ctx, loop=True)
+                cond = r.choice((B(False), bin_('==', I(1), I(2)), ('un', 'not', B(True)), bin_('>', I(1), I(2))))
+                inner = self.stmts(depth - 1, lctx)
+                if r.random() < 0.3:
+                    out.append(('for', None, cond, None, block(*inner)))
+                else:
+                    out.append(while_(cond, *inner))
+                out.append(self.mark())
+            elif c < 3 or depth <= 0:
                 out += [self.mark(), aug('+', 'z', I(1))]
             elif c < 5:
                 out.append(if_(self.cond(), block(*self.stmts(depth - 1, ctx)),
